@@ -14,3 +14,26 @@ for pid, sp in sorted(props.PROPS.items()):
         mod.build_part(part)
         n += 1
 print("warmed", n, "harness builds")
+
+# the CMake-built parts (graph-convert for C12, the Lonestar apps for C20, the
+# distributed libraries + MPI harnesses for C18/C19): warm their caches too so
+# that the first quick run does not pay for a cold build.  Failures here are
+# not fatal: the checks build what they need themselves.
+import subprocess
+try:
+    from vlib import appbuild, distbuild
+    r = appbuild.app_build()
+    print("warmed app build", r["dir"])
+    for h in ("c19_partition", "c18_gluon"):
+        exe, _res = distbuild.build_dist_harness(h, ("-fno-access-control",))
+        print("warmed", exe)
+    loader = importlib.machinery.SourceFileLoader(
+        "c12conv", os.path.join(build.VERIF, "harness", "c12_convert.py"))
+    spec = importlib.util.spec_from_loader("c12conv", loader)
+    m12 = importlib.util.module_from_spec(spec)
+    loader.exec_module(m12)
+    print("warmed", m12.tool_build())
+except SystemExit as e:
+    print("warm-up of CMake-built parts stopped:", e)
+except Exception as e:  # noqa: BLE001
+    print("warm-up of CMake-built parts failed (checks build on demand):", e)
